@@ -451,6 +451,13 @@ func scC08Race(r *Run) {
 	T := r.T
 	g := &muxGen{variants: allVariants, minCalls: 40, maxCalls: 200, paramChanges: true, fastRotation: true, negativeStart: true,
 		paramChangeDen: Pick(T, 6, 2, 1), forceVideo: T.Chance(1, 2)}
+	// each codec keeps its parameters in fields of its own: a third of the runs stay with one of the rarer ones
+	switch T.Intn(6) {
+	case 0:
+		g.videoKinds, g.forceVideo = []string{"vp9"}, true
+	case 1:
+		g.videoKinds, g.forceVideo = []string{"av1", "h265"}, true
+	}
 	cfg := genMuxCfg(r, g)
 	if T.Chance(1, 2) {
 		cfg.disk = true
